@@ -400,6 +400,14 @@ func (r *RulesBasedSamplerCondition) Init() error {
 			r.Fields = []string{r.Field}
 		}
 		err = r.setMatchesFunction()
+		// A condition on a field that is absent does not match, whatever the
+		// operator, unless the operator is not-exists. The string-based
+		// operators would otherwise see the rendering of a nil value.
+		if matches := r.Matches; err == nil && matches != nil && r.Operator != NotExists {
+			r.Matches = func(value any, exists bool) bool {
+				return exists && matches(value, exists)
+			}
+		}
 	})
 	return err
 }
